@@ -307,6 +307,22 @@ func (e *Engine) evalIdent(env *Env, name string) (TV, error) {
 	}
 	if env.fr != nil {
 		if g, ok := env.fr.ghosts[name]; ok {
+			// declared type of the ghost (needed for field selection / indexing on ghost values)
+			if c := env.fr.contract; c != nil {
+				for _, gd := range c.Ghosts {
+					if gd.Name == name {
+						genv := env
+						if genv.pkg == nil && env.fr.fn.Pkg != nil {
+							ce := *env
+							ce.pkg = env.fr.fn.Pkg.Pkg
+							genv = &ce
+						}
+						if ty, _, err := e.resolveType(genv, gd.Type); err == nil && ty != nil {
+							return TV{g, ty}, nil
+						}
+					}
+				}
+			}
 			return TV{g, nil}, nil
 		}
 		// parameters
@@ -950,6 +966,41 @@ func (e *Engine) evalCall(env *Env, n *ECall) (TV, error) {
 		r := e.bytesToString(s, t, st.Elem())
 		s.heap = saved
 		return TV{r, types.Typ[types.String]}, nil
+	case "boxed":
+		// boxed(x, "T", v): interface value x holds a (non-pointer) value of dynamic type T equal to v
+		if len(n.Args) != 3 {
+			return TV{}, fmt.Errorf("boxed(x, \"T\", v)")
+		}
+		ts, ok := n.Args[1].(*EStr)
+		if !ok {
+			return TV{}, fmt.Errorf("boxed(): second argument must be a type string")
+		}
+		ty, _, err := e.resolveType(env, ts.Val)
+		if err != nil {
+			return TV{}, err
+		}
+		x, err := e.evalTerm(env, n.Args[0])
+		if err != nil {
+			return TV{}, err
+		}
+		if x.Sort != SIface {
+			return TV{}, fmt.Errorf("boxed(): not an interface value")
+		}
+		v, err := e.evalTerm(env, n.Args[2])
+		if err != nil {
+			return TV{}, err
+		}
+		if isPointerLike(ty) {
+			return TV{}, fmt.Errorf("boxed(): use as() for pointer-like types")
+		}
+		key, sort := e.boxKey(ty)
+		h := s.heapGet(key, sort)
+		if env.old != nil && env.inOld {
+			if hv, ok := env.old.heap[key]; ok {
+				h = hv
+			}
+		}
+		return TV{And(Eq(App("i-type", SInt, x), IntLit(int64(e.tm.TypeID(ty)))), Eq(Select(h, App("i-val", SInt, x)), v)), types.Typ[types.Bool]}, nil
 	case "isNilIface":
 		a, err := e.evalTerm(env, n.Args[0])
 		if err != nil {
